@@ -94,17 +94,13 @@ def run_rtc(ctx, prop, replay=None):
             continue
         for k, v in ctx.stat_lines(err).items():
             gen_stats[k] = gen_stats.get(k, 0) + v
-        rc, lines = ctx.driver("rtc", trace)
+        # the tree carries the repair of finding F6 (a reply error is recorded, serve keeps serving): replay against
+        # M_rtc Variant.fixed; the behaviour of Variant.pinned (serve stops) is a regression
+        rc, lines = ctx.driver("rtc", trace, args=["fixed"])
         if rc != 0:
             ctx.violation("rtc driver failed", "rtc-driver-failure", "\n".join(lines[-30:]), no_input=True)
             continue
-        if any("accept=mismatch" in l for l in lines):
-            # the pinned code stops serving on a reply error (finding F6); if the tree carries the
-            # repair (record the error, keep serving) the runs are accepted by the `fixed` variant
-            rc2, lines2 = ctx.driver("rtc", trace, args=["fixed"])
-            if rc2 == 0 and not any("accept=mismatch" in l for l in lines2):
-                lines = lines2
-                variant_used["fixed"] = variant_used.get("fixed", 0) + 1
+        variant_used["fixed"] = variant_used.get("fixed", 0) + 1
         cases = split_cases(trace)
         detail = {}
         for line in lines:
